@@ -883,7 +883,7 @@ Qed.
 
 Lemma merge_dirdef_np p n : is_panic (merge_dirdef p n) = false.
 Proof.
-  unfold merge_dirdef. apply bind_no_panic.
+  unfold merge_dirdef. destruct (negb (Bool.eqb (dd_repeatable p) (dd_repeatable n))); [reflexivity|]. apply bind_no_panic.
   - unfold merge_locations. nopanic.
   - intros locs. apply bind_no_panic; [apply merge_argdefs_np|]. intros args. reflexivity.
 Qed.
